@@ -153,7 +153,7 @@ def check_roundtrip(spec: dict) -> core.CaseResult:
         for i, t in enumerate(tasks):
             m = spec['metas'][i % len(spec['metas'])]
             meta = ResultMeta(start=datetime(*m['start']), duration=timedelta(days=m['dur'][0], seconds=m['dur'][1], microseconds=m['dur'][2]))
-            value = {'name': t.name, 'v': vu.build_shape(t.shape)}
+            value = {'name': t.name, 'v': vu.build_shape(t.shape), 'gen': None}
             t._lt.cache.save(storage, t, TaskResult(value=value, meta=meta))
             saved[t.name] = (value, meta)
         for t in resultcase.build_tasks(spec):
